@@ -510,7 +510,10 @@ def prop_c02(k, bs, cs, es, ephs):
             with Oracle([(n % (2 ** 255)) + 1 for n in parse_nats(ephs)]):
                 Bec2File(Bf3File({}, []), block_objs, bytes(b ^ 0x5A for b in key)).to_binary(wencs)
         with Oracle(parse_nats(ephs)):
-            f0 = Bec2File(Bf3File({}, b3.parse_comps(cs)), block_objs, key)
+            # `auth_blocks` and `components` are declared as Iterables: handed over as list, tuple or one-shot iterators
+            how = key[1] % 3
+            f0 = Bec2File(Bf3File({}, b3.parse_comps(cs) if how == 0 else iter(b3.parse_comps(cs))),
+                          block_objs if how == 0 else (tuple(block_objs) if how == 1 else (b for b in block_objs)), key)
             s = io.StringIO()
             f0.write_file(s, wencs)
             text = s.getvalue()
